@@ -178,7 +178,7 @@ func c10R2(c *Ctx, rule string) {
 		if len(ret.Results) != 1 {
 			continue
 		}
-		if c.P.D(ret.Results[0]) == "nil" {
+		if c.P.D(engine.ReturnValues(ret)[0]) == "nil" {
 			nilRets++
 			c.RequireAt(r, rule, "restoreSnapshot:return-nil", ret, "returns nil only when a snapshot was restored and all four positions were set from it (index/term/configuration arguments are that snapshot's fields), or when there are no snapshots",
 				func(v engine.View) bool {
@@ -200,7 +200,7 @@ func c10R2(c *Ctx, rule string) {
 			predErr("openErr", "recv.snapshots.Open("),
 		}})
 		for _, ret := range engine.ReturnsOf(tf) {
-			if len(ret.Results) == 1 && c.P.D(ret.Results[0]) == "true" {
+			if len(ret.Results) == 1 && c.P.D(engine.ReturnValues(ret)[0]) == "true" {
 				c.RequireAt(rr, rule, "tryRestoreSingleSnapshot:return-true", ret, "true only when NoSnapshotRestoreOnStart, or Open and the FSM restore both returned nil",
 					func(v engine.View) bool {
 						return v.T("optout") || (v.Seen("restore") && v.F("restoreErr") && v.F("openErr"))
